@@ -542,6 +542,8 @@ class TeX(object):
         # Since the true content always comes first, we need to set
         # True to case 0 and False to case 1.
         elsefound = False
+        elsecase = None
+        iscase = not isinstance(which, bool)
         if isinstance(which, bool):
             if which: which = 0
             else: which = 1
@@ -568,6 +570,7 @@ class TeX(object):
                 nesting -= 1
             elif not(nesting) and name == 'else':
                 cases.append([])
+                elsecase = len(cases) - 1
                 continue
             elif not(nesting) and name == 'or':
                 cases.append([])
@@ -580,6 +583,17 @@ class TeX(object):
 
         # else case for ifs without elses
         cases.append([])
+
+        # An \ifcase whose number is not one of the listed cases takes
+        # the \else text if there is one and nothing otherwise
+        if iscase:
+            ncases = len(cases) - 1
+            if elsecase is not None:
+                ncases = elsecase
+            if which < 0 or which >= ncases:
+                which = len(cases) - 1
+                if elsecase is not None:
+                    which = elsecase
 
         # Push if-selected tokens back into tokenizer
         self.pushTokens(cases[which])
